@@ -679,3 +679,339 @@ func init() {
 }
 
 var _ = sort.Strings
+
+// ---------------------------------------------------------------------------
+// C26: c2json arity equals the C binding's arity
+
+type cMethod struct {
+	Name    string `json:"name"`
+	Static  bool   `json:"static"`
+	Style   string `json:"style"` // aspec | format | mrbc
+	Aspec   string `json:"aspec,omitempty"`
+	Format  string `json:"format,omitempty"`
+	Min     int    `json:"min"`
+	Max     int    `json:"max"` // -1 = unbounded
+	ArgLits []string `json:"arg_lits"`
+	Source  string `json:"source"`
+	Define  string `json:"define"`
+}
+
+type cCase struct {
+	Source  string     `json:"source"`
+	Methods []*cMethod `json:"methods"`
+	Calls   string     `json:"calls,omitempty"`
+}
+
+var fmtChars = []struct{ ch, lit string }{{"i", "1"}, {"f", "1.5"}, {"s", "\"s\""}, {"z", "\"s\""}, {"S", "\"s\""}, {"A", "[1]"}, {"H", "{a: 1}"}, {"b", "true"}, {"n", ":a"}, {"o", "1"}}
+
+func genCMethod(r *RNG, idx int) *cMethod {
+	m := &cMethod{Name: fmt.Sprintf("cm%d", idx), Static: r.Chance(1, 3)}
+	fn := fmt.Sprintf("c_cgen_%s", m.Name)
+	switch r.Intn(3) {
+	case 0: // MRB_ARGS spec only
+		m.Style = "aspec"
+		switch r.Intn(8) {
+		case 0:
+			m.Aspec, m.Min, m.Max = "MRB_ARGS_NONE()", 0, 0
+		case 1:
+			m.Aspec, m.Min, m.Max = "MRB_ARGS_ANY()", 0, -1
+		default:
+			req, opt, post := r.Intn(3), 0, 0
+			var parts []string
+			if req > 0 || r.Bool() {
+				parts = append(parts, fmt.Sprintf("MRB_ARGS_REQ(%d)", req))
+			} else {
+				req = 0
+			}
+			if r.Chance(1, 2) {
+				opt = 1 + r.Intn(2)
+				parts = append(parts, fmt.Sprintf("MRB_ARGS_OPT(%d)", opt))
+			}
+			rest := r.Chance(1, 4)
+			if rest {
+				parts = append(parts, "MRB_ARGS_REST()")
+				if r.Chance(1, 3) {
+					post = 1
+					parts = append(parts, "MRB_ARGS_POST(1)")
+				}
+			}
+			if r.Chance(1, 5) {
+				parts = append(parts, "MRB_ARGS_BLOCK()")
+			}
+			if len(parts) == 0 {
+				parts = []string{"MRB_ARGS_REQ(1)"}
+				req = 1
+			}
+			m.Aspec = strings.Join(parts, "|")
+			m.Min, m.Max = req+post, req+opt+post
+			if rest {
+				m.Max = -1
+			}
+		}
+		m.Source = fmt.Sprintf("static mrb_value %s(mrb_state *mrb, mrb_value self)\n{\n  return mrb_nil_value();\n}\n", fn)
+	case 1: // mrb_get_args format
+		m.Style = "format"
+		req, opt := r.Intn(3), 0
+		var f strings.Builder
+		for i := 0; i < req; i++ {
+			c := Pick(r, fmtChars)
+			f.WriteString(c.ch)
+			m.ArgLits = append(m.ArgLits, c.lit)
+			if r.Chance(1, 8) {
+				f.WriteString("!")
+			}
+		}
+		if r.Chance(1, 2) {
+			opt = 1 + r.Intn(2)
+			f.WriteString("|")
+			for i := 0; i < opt; i++ {
+				c := Pick(r, fmtChars)
+				f.WriteString(c.ch)
+				m.ArgLits = append(m.ArgLits, c.lit)
+				if r.Chance(1, 6) {
+					f.WriteString("?")
+				}
+			}
+		}
+		rest := r.Chance(1, 5)
+		if rest {
+			f.WriteString("*")
+		}
+		if r.Chance(1, 6) {
+			f.WriteString("&")
+		}
+		m.Format = f.String()
+		if m.Format == "" {
+			m.Format = "|i"
+			opt = 1
+			m.ArgLits = []string{"1"}
+		}
+		m.Min, m.Max = req, req+opt
+		if rest {
+			m.Max = -1
+		}
+		m.Aspec = "MRB_ARGS_ANY()"
+		if r.Bool() {
+			m.Aspec = fmt.Sprintf("MRB_ARGS_REQ(%d)", req)
+			if opt > 0 {
+				m.Aspec += fmt.Sprintf("|MRB_ARGS_OPT(%d)", opt)
+			}
+		}
+		m.Source = fmt.Sprintf("static mrb_value %s(mrb_state *mrb, mrb_value self)\n{\n  mrb_int a0 = 0;\n  mrb_get_args(mrb, \"%s\", &a0);\n  return mrb_fixnum_value(a0);\n}\n", fn, m.Format)
+	default: // mruby/c style
+		m.Style = "mrbc"
+		req, opt := r.Intn(3), r.Intn(3)
+		if req+opt == 0 {
+			req = 1
+		}
+		var b strings.Builder
+		kinds := []struct{ k, lit string }{{"INT", "1"}, {"FLOAT", "1.5"}, {"STRING", "\"s\""}}
+		for i := 1; i <= req; i++ {
+			k := Pick(r, kinds)
+			fmt.Fprintf(&b, "  int v%d = GET_%s_ARG(%d);\n", i, k.k, i)
+			m.ArgLits = append(m.ArgLits, k.lit)
+		}
+		for i := req + 1; i <= req+opt; i++ {
+			k := Pick(r, kinds)
+			fmt.Fprintf(&b, "  if (argc >= %d) {\n    int v%d = GET_%s_ARG(%d);\n  }\n", i, i, k.k, i)
+			m.ArgLits = append(m.ArgLits, k.lit)
+		}
+		m.Min, m.Max = req, req+opt
+		m.Source = fmt.Sprintf("static void %s(mrbc_vm *vm, mrbc_value v[], int argc)\n{\n%s  SET_NIL_RETURN();\n}\n", fn, b.String())
+	}
+	switch {
+	case m.Style == "mrbc" && m.Static:
+		m.Define = fmt.Sprintf("  mrbc_define_class_method(vm, cls, \"%s\", %s);", m.Name, fn)
+	case m.Style == "mrbc":
+		m.Define = fmt.Sprintf("  mrbc_define_method(vm, cls, \"%s\", %s);", m.Name, fn)
+	case r.Chance(1, 3):
+		st := ""
+		if m.Static {
+			st = "class_"
+		}
+		m.Define = fmt.Sprintf("  mrb_define_%smethod_id(mrb, cls, MRB_SYM(%s), %s, %s);", st, m.Name, fn, m.Aspec)
+	default:
+		st := ""
+		if m.Static {
+			st = "class_"
+		}
+		m.Define = fmt.Sprintf("  mrb_define_%smethod(mrb, cls, \"%s\", %s, %s);", st, m.Name, fn, m.Aspec)
+	}
+	return m
+}
+
+func judgeC(c *CheckCtx, s *Slot, cc *cCase) *Violation {
+	dir := filepath.Join(s.root, "c2j")
+	os.MkdirAll(dir, 0o755)
+	in := filepath.Join(dir, "input.c")
+	os.WriteFile(in, []byte(cc.Source), 0o644)
+	var first string
+	for i := 0; i < 3; i++ {
+		out, se, ex := runTool(c.Eng.B.C2json, dir, "", "-class", "Cgen", in)
+		c.Eval(1)
+		if ex != 0 {
+			return &Violation{Sig: "c2json:exit", Kind: "c2json", Case: mustJSON(cc), What: fmt.Sprintf("ti-c2json exits with status %d: %s", ex, oneLine(se, 300))}
+		}
+		if i == 0 {
+			first = out
+		} else if out != first {
+			return &Violation{Sig: "c2json:nondeterministic", Kind: "c2json", Case: mustJSON(cc), What: "two conversions of the same C source differ", Expected: clip(first, 2000), Observed: clip(out, 2000)}
+		}
+	}
+	c.Nontrivial(cc.Source)
+	extra := map[string]string{"zz_cgen.json": first, "zz_cgen_new.json": `{"frame":"Builtin","class":"Cgen","class_methods":[{"name":"new","arguments":[],"return_type":{"type":["Cgen"]}}]}`}
+	cfg := cfgWith(extra)
+	var sb strings.Builder
+	sb.WriteString("cg = Cgen.new\n")
+	type expect struct {
+		row    int
+		accept bool
+		m      *cMethod
+		k      int
+	}
+	var exps []expect
+	row := 1
+	for _, m := range cc.Methods {
+		for k := 0; k <= 6; k++ {
+			var args []string
+			for i := 0; i < k; i++ {
+				if i < len(m.ArgLits) {
+					args = append(args, m.ArgLits[i])
+				} else {
+					args = append(args, "1")
+				}
+			}
+			recv := "cg"
+			if m.Static {
+				recv = "Cgen"
+			}
+			row++
+			fmt.Fprintf(&sb, "%s.%s(%s)\n", recv, m.Name, strings.Join(args, ", "))
+			exps = append(exps, expect{row, k >= m.Min && (m.Max < 0 || k <= m.Max), m, k})
+		}
+	}
+	cc.Calls = sb.String()
+	run := func(rn Runner) (map[int]string, bool) {
+		res := rn.Run(&Exec{Files: map[string]string{targetFile: cc.Calls}, Argv: []string{targetFile}, Config: cfg})
+		c.Eval(1)
+		if (rn.IsBlackBox() && (res.Crashed() || res.Timeout() || res.Watchdog)) || (!rn.IsBlackBox() && !res.Normal()) {
+			return nil, false
+		}
+		bad := map[int]string{}
+		for _, r := range parseOut(res.Stdout) {
+			if r.Row > 0 && !r.Hint {
+				bad[r.Row] = r.Msg
+			}
+		}
+		return bad, true
+	}
+	bad, ok := run(s.InProc())
+	if !ok {
+		c.Event("skipped_crash_or_hang", 1)
+		return nil
+	}
+	var bbBad map[int]string
+	var pendingC *Violation
+	for _, e := range exps {
+		c.Event("arity_calls_judged", 1)
+		_, rejected := bad[e.row]
+		if e.accept != rejected {
+			continue
+		}
+		if bbBad == nil {
+			if bbBad, ok = run(s.BlackBox()); !ok {
+				return nil
+			}
+		}
+		if _, r2 := bbBad[e.row]; r2 != rejected {
+			c.Event("driver_divergence", 1)
+			continue
+		}
+		kind := "rejects-accepted-count"
+		if !e.accept {
+			kind = "accepts-rejected-count"
+		}
+		spec := e.m.Style
+		switch e.m.Style {
+		case "aspec":
+			spec += ":" + regexpReplaceDigits(e.m.Aspec)
+		case "format":
+			spec += ":" + formatShape(e.m.Format)
+		case "mrbc":
+			spec += fmt.Sprintf(":req%d-opt%d", e.m.Min, e.m.Max-e.m.Min)
+		}
+		sig := "c2json:arity:" + kind + ":" + spec
+		if e.m.Style == "aspec" && strings.Contains(e.m.Aspec, "POST") && strings.Contains(e.m.Aspec, "OPT") {
+			// the shape of the listed finding (ti binds configured parameters left to right)
+			sig = "c2json:arity:post-after-optional"
+		}
+		v := &Violation{Sig: sig, Kind: "c2json", Case: mustJSON(cc),
+			What:     fmt.Sprintf("ti, loaded with the configuration emitted by ti-c2json, %s: %s called with %d argument(s); the C definition (%s %s%s) accepts %d..%d (row %d: %s)", kind, e.m.Name, e.k, e.m.Style, e.m.Aspec, e.m.Format, e.m.Min, e.m.Max, e.row, bad[e.row]),
+			Expected: e.m.Define + "\n" + e.m.Source, Observed: clip(first, 2500)}
+		if sig == "c2json:arity:post-after-optional" {
+			if pendingC == nil {
+				pendingC = v
+			}
+			continue
+		}
+		return v
+	}
+	return pendingC
+}
+
+func regexpReplaceDigits(s string) string { return digitsRe.ReplaceAllString(s, "N") }
+
+// formatShape abstracts a get_args format: argument letters become 'x'.
+func formatShape(f string) string {
+	var sb strings.Builder
+	for _, ch := range f {
+		switch ch {
+		case '|', '*', '&', '!', '?':
+			sb.WriteRune(ch)
+		default:
+			sb.WriteRune('x')
+		}
+	}
+	return sb.String()
+}
+
+func init() {
+	register(&Check{ID: "C26", Title: "c2json arity equals the C binding's arity", NeedTools: true,
+		Replay: func(c *CheckCtx, s *Slot, v *Violation) *Violation {
+			var cc cCase
+			if json.Unmarshal(v.Case, &cc) != nil {
+				return nil
+			}
+			return judgeC(c, s, &cc)
+		},
+		Run: func(c *CheckCtx) {
+			c.rule = "generated C sources defining 3-8 methods of one class through mrb_define_method / mrb_define_class_method / mrb_define_method_id / mrbc_define_method / mrbc_define_class_method, with an MRB_ARGS spec only (REQ/OPT/REST/POST/BLOCK/NONE/ANY), with an mrb_get_args format (argument letters, |, *, &, !, ?) or with GET_*_ARG(n) / `if (argc >= n)` patterns; ti-c2json converts each source 3 times (byte equality); ti - loaded with the shipped configuration plus the emitted class - checks calls with 0..6 arguments of fitting types, which must be accepted exactly when the generator's model of the C definition accepts that count. distinct_nontrivial = distinct C sources"
+			c.assumptions = []string{"model of the C side: aspec-only definitions accept REQ+POST .. REQ+OPT+POST (unbounded with REST, any count for ANY, none for NONE); with mrb_get_args the format decides (letters before | required, after | optional, * unbounded; & ! ? consume no argument); GET_*_ARG(n) read unconditionally are required, those under `if (argc >= n)` optional", "a class method `new` is added in a separate configuration file so that instance methods can be called"}
+			r := c.RNG.Sub(26)
+			n := c.N(90, 2500)
+			jobs := make([]*cCase, n)
+			for i := range jobs {
+				nm := 3 + r.Intn(6)
+				cc := &cCase{}
+				var src, defs strings.Builder
+				src.WriteString("#include <mruby.h>\n\n")
+				for k := 0; k < nm; k++ {
+					m := genCMethod(r, k)
+					cc.Methods = append(cc.Methods, m)
+					src.WriteString(m.Source + "\n")
+					defs.WriteString(m.Define + "\n")
+				}
+				src.WriteString("void mrb_cgen_gem_init(mrb_state *mrb)\n{\n  struct RClass *cls = mrb_define_class(mrb, \"Cgen\", mrb->object_class);\n" + defs.String() + "}\n")
+				cc.Source = src.String()
+				jobs[i] = cc
+			}
+			c.Eng.Map(n, func(s *Slot, i int) {
+				if i%41 == 0 {
+					c.Sample(map[string]any{"c_source": clip(jobs[i].Source, 700)})
+				}
+				if v := judgeC(c, s, jobs[i]); v != nil {
+					c.Report(v)
+				}
+			})
+		}})
+}
